@@ -13,6 +13,7 @@ import (
 	"sort"
 	"strings"
 	"sync"
+	"sync/atomic"
 	"syscall"
 	"time"
 
@@ -187,16 +188,50 @@ func driveIndex(c *hx.Ctx) {
 // ---------------------------------------------------------------- scripted handshakes
 
 type regConn struct {
-	Script script `json:"script"`
-	Obs    rawObs `json:"obs"`
-	Class  string `json:"class"`
+	Script     script `json:"script"`
+	Obs        rawObs `json:"obs"`
+	Class      string `json:"class"`
+	Unfinished bool   `json:"unfinished,omitempty"` // its registration step never ended; the driver closed the connection
 }
 
 type regCase struct {
 	Conns  []regConn `json:"conns"`
 	Fired  []int64   `json:"fired"`
-	Errors []string  `json:"errors,omitempty"`
+	Errors []string  `json:"errors,omitempty"` // judged: what the runtime failed to do for the driver itself
+	Notes  []string  `json:"notes,omitempty"`  // not judged
 	Stalls int       `json:"stalls"`
+	Stuck  bool      `json:"stuck,omitempty"` // the runtime stopped serving connections or requests in this case
+}
+
+// the order in which fireAll issues the thirteen requests
+var firedOrder = []int64{1, 12, 13, 4, 5, 6, 7, 8, 9, 10, 11, 2, 3}
+
+// Bounds of the handshake driver.  A whole case (up to ~20 connections, no stall) settles in a few
+// tens of milliseconds; settleBound is what the driver waits for any single step before it RECORDS
+// that the step did not happen (an observation judged by the oracle, never a harness error).  Once
+// the runtime is known to be stuck in a case the remaining waits of that case are cut to stuckBound,
+// and after maxStuckCases such cases the rest of the stream is skipped (the verdict is settled).
+const (
+	settleBound   = 20 * time.Second
+	stuckBound    = 2 * time.Second
+	fireBound     = 60 * time.Second
+	stopBound     = 20 * time.Second
+	maxStuckCases = 3
+)
+
+var stuckCases int32 // cases in which the runtime got stuck, over the whole driver run
+
+// stopBounded stops the Adaptation; when Stop itself does not return the instance is abandoned (its
+// goroutines leak until the driver exits) and the driver goes on with fresh instances.
+func stopBounded(a *adaptation.Adaptation) bool {
+	done := make(chan struct{})
+	go func() { a.Stop(); close(done) }()
+	select {
+	case <-done:
+		return true
+	case <-time.After(stopBound):
+		return false
+	}
 }
 
 func fireAll(a *adaptation.Adaptation) ([]int64, []string) {
@@ -228,12 +263,18 @@ func fireAll(a *adaptation.Adaptation) ([]int64, []string) {
 	chk("RemoveContainer", a.RemoveContainer(ctx, evt()))
 	chk("StopPodSandbox", a.StopPodSandbox(ctx, evt()))
 	chk("RemovePodSandbox", a.RemovePodSandbox(ctx, evt()))
-	return []int64{1, 12, 13, 4, 5, 6, 7, 8, 9, 10, 11, 2, 3}, errs
+	return firedOrder, errs
 }
 
 // runRegCase connects the scripted peers in order to one fresh Adaptation (the accept loop handles
 // them sequentially in that order), then a sentinel; once the sentinel is synchronised every earlier
 // connection has been dealt with; then all thirteen events are fired once.
+//
+// Everything the runtime may fail to do is an OBSERVATION: a sentinel that is never synchronised, a
+// sync block that cannot be taken, requests that do not return, a peer whose registration step never
+// ends (it is then closed by the driver and recorded as what it saw: not registered, never
+// configured, never synchronised, no events).  The oracle judges the observations.  Only failures of
+// the machinery (scratch directory, socket, dial) are returned as errors.
 func runRegCase(scripts []script, stallBudget time.Duration) (*regCase, error) {
 	dir, err := scratch("rg")
 	if err != nil {
@@ -252,51 +293,102 @@ func runRegCase(scripts []script, stallBudget time.Duration) (*regCase, error) {
 	if err := a.Start(); err != nil {
 		return nil, err
 	}
-	defer a.Stop()
+	cs := &regCase{Fired: firedOrder}
+	defer func() {
+		if !stopBounded(a) {
+			cs.Notes = append(cs.Notes, fmt.Sprintf("Adaptation.Stop did not return within %v; instance abandoned", stopBound))
+		}
+	}()
 
 	release := make(chan struct{})
 	all := append(append([]script{}, scripts...), script{Reg: "now", Name: "sentinel", Idx: "99", Cfg: "reply", Mask: 0, Sync: "ok"})
-	peers := make([]*rawPlugin, len(all))
-	for i, sc := range all {
-		p, err := dialRaw(sock, sc, release)
-		if err != nil {
-			return nil, fmt.Errorf("dial %d: %w", i, err)
-		}
-		peers[i] = p
-		go p.run()
-	}
+	peers := make([]*rawPlugin, 0, len(all))
 	defer func() {
 		for _, p := range peers {
 			p.shutdown()
 		}
 	}()
-	cs := &regCase{}
+	for i, sc := range all {
+		p, err := dialRaw(sock, sc, release)
+		if err != nil {
+			return nil, fmt.Errorf("dial %d: %w", i, err)
+		}
+		peers = append(peers, p)
+		go p.run()
+	}
 	sentinel := peers[len(peers)-1]
-	deadline := time.Now().Add(stallBudget + 20*time.Second)
+	deadline := time.Now().Add(stallBudget + settleBound)
 	for sentinel.snapshot().Syncs == 0 && time.Now().Before(deadline) {
 		time.Sleep(time.Millisecond)
+	}
+	bound := func() time.Duration {
+		if cs.Stuck {
+			return stuckBound
+		}
+		return settleBound
+	}
+	markStuck := func() { // counted at once, so that cases that have not started yet are skipped
+		if !cs.Stuck {
+			cs.Stuck = true
+			atomic.AddInt32(&stuckCases, 1)
+		}
+	}
+	if sentinel.snapshot().Syncs == 0 {
+		markStuck()
+		cs.Notes = append(cs.Notes, fmt.Sprintf("the last connection was not synchronized within %v", stallBudget+settleBound))
 	}
 	// the last activation is complete once a sync block can be taken
 	barrier := make(chan struct{})
 	go func() { a.BlockPluginSync().Unblock(); close(barrier) }()
 	select {
 	case <-barrier:
-	case <-time.After(20 * time.Second):
-		cs.Errors = append(cs.Errors, "BlockPluginSync did not return within 20s")
+	case <-time.After(bound()):
+		cs.Errors = append(cs.Errors, fmt.Sprintf("BlockPluginSync did not return within %v after the last connection", bound()))
+		markStuck()
 	}
-	fired, errs := fireAll(a)
-	cs.Fired = fired
-	cs.Errors = append(cs.Errors, errs...)
+	type fireRes struct{ errs []string }
+	fch := make(chan fireRes, 1)
+	go func() { _, errs := fireAll(a); fch <- fireRes{errs} }()
+	select {
+	case r := <-fch:
+		cs.Errors = append(cs.Errors, r.errs...)
+	case <-time.After(fireBound):
+		cs.Errors = append(cs.Errors, fmt.Sprintf("the thirteen requests did not return within %v", fireBound))
+		markStuck()
+	}
 	close(release)
-	for i, p := range peers {
-		select {
-		case <-p.done:
-		case <-time.After(20 * time.Second):
-			return nil, fmt.Errorf("peer %d (%+v) did not finish its registration step", i, p.sc)
+	// every peer's registration step is over by now (late ones were released); one that is still inside
+	// it is not being served by the runtime: close it and record what it saw
+	waitPeers := func(idx []int, d time.Duration) []int {
+		ctx, cancel := context.WithTimeout(context.Background(), d)
+		defer cancel()
+		var left []int
+		for _, i := range idx {
+			select {
+			case <-peers[i].done:
+			case <-ctx.Done():
+				left = append(left, i)
+			}
+		}
+		return left
+	}
+	idx := make([]int, len(peers))
+	for i := range idx {
+		idx[i] = i
+	}
+	unfinished := map[int]bool{}
+	if left := waitPeers(idx, bound()); len(left) > 0 {
+		markStuck()
+		for _, i := range left {
+			unfinished[i] = true
+			peers[i].shutdown()
+		}
+		for _, i := range waitPeers(left, settleBound) {
+			cs.Notes = append(cs.Notes, fmt.Sprintf("peer %d still inside RegisterPlugin after its connection was closed", i))
 		}
 	}
-	for _, p := range peers {
-		cs.Conns = append(cs.Conns, regConn{Script: p.sc, Obs: p.snapshot(), Class: classify(p.sc)})
+	for i, p := range peers {
+		cs.Conns = append(cs.Conns, regConn{Script: p.sc, Obs: p.snapshot(), Class: classify(p.sc), Unfinished: unfinished[i]})
 	}
 	return cs, nil
 }
@@ -537,6 +629,9 @@ func driveHandshakes(c *hx.Ctx) error {
 			defer wg.Done()
 			sem <- struct{}{}
 			defer func() { <-sem }()
+			if atomic.LoadInt32(&stuckCases) >= maxStuckCases {
+				return // the runtime stops serving connections: the verdict is settled, do not wait out the rest
+			}
 			results[i], errs[i] = runRegCase(cases[i], 0)
 		}(i)
 	}
@@ -545,10 +640,22 @@ func driveHandshakes(c *hx.Ctx) error {
 		if errs[i] != nil {
 			return fmt.Errorf("register case %d: %w", i, errs[i])
 		}
+		if cs == nil {
+			c.Count("register.cases_skipped_after_stuck_runtime", 1)
+			continue
+		}
 		emitRegCase(c, sh, "register", cs)
 		if i == 0 || i == len(results)-1 {
 			c.Sample(map[string]interface{}{"stream": "register", "connections": len(cs.Conns), "first": cs.Conns[0], "last_but_sentinel": cs.Conns[len(cs.Conns)-2]}, 8)
 		}
+	}
+
+	if n := atomic.LoadInt32(&stuckCases); n > 0 {
+		// with a runtime that already stopped serving connections without any stall the stall stream
+		// would only wait out its bounds
+		c.Count("register.stuck_cases", int(n))
+		c.Count("stall.skipped_after_stuck_runtime", 1)
+		return nil
 	}
 
 	// --- phase 2: peers that stall the handshake; short time-outs
@@ -576,6 +683,9 @@ func driveHandshakes(c *hx.Ctx) error {
 	sres := make([]*regCase, len(scases))
 	serr := make([]error, len(scases))
 	run := func(i int) {
+		if atomic.LoadInt32(&stuckCases) >= maxStuckCases {
+			return
+		}
 		n := 0
 		for _, sc := range scases[i] {
 			if cl := classify(sc); cl == "reg-timeout" || cl == "req-timeout" || sc.Sync == "silent" {
@@ -601,12 +711,17 @@ func driveHandshakes(c *hx.Ctx) error {
 	for i := range scases {
 		// timing discipline: a disagreement in a case whose outcome depends on the clock is re-run
 		// alone, up to three times, before it is reported
-		for try := 0; try < 3 && serr[i] == nil && len(sres[i].mismatches()) > 0; try++ {
+		for try := 0; try < 3 && serr[i] == nil && sres[i] != nil && len(sres[i].mismatches()) > 0 &&
+			atomic.LoadInt32(&stuckCases) < maxStuckCases; try++ {
 			c.Count("stall.reruns", 1)
 			run(i)
 		}
 		if serr[i] != nil {
 			return fmt.Errorf("stall case %d: %w", i, serr[i])
+		}
+		if sres[i] == nil {
+			c.Count("stall.cases_skipped_after_stuck_runtime", 1)
+			continue
 		}
 		emitRegCase(c, st, "stall", sres[i])
 		c.Count("stall.stalling_connections", sres[i].Stalls)
@@ -802,14 +917,18 @@ func driveRegister(c *hx.Ctx) error {
 	if err := driveHandshakes(c); err != nil {
 		return err
 	}
-	for _, cl := range []string{"good", "bad-name", "bad-index", "bad-mask", "cfg-error", "closed", "sync-failed", "reg-timeout", "req-timeout"} {
-		if c.Stats.Distribution["register.class."+cl] == 0 {
-			c.HarnessError("register: no connection of outcome class %s was generated", cl)
+	// the streams must have produced their target shapes — unless cases were skipped because the runtime
+	// stopped serving connections (then the failing cases are the result, not a shortfall of the generator)
+	if atomic.LoadInt32(&stuckCases) == 0 {
+		for _, cl := range []string{"good", "bad-name", "bad-index", "bad-mask", "cfg-error", "closed", "sync-failed", "reg-timeout", "req-timeout"} {
+			if c.Stats.Distribution["register.class."+cl] == 0 {
+				c.HarnessError("register: no connection of outcome class %s was generated", cl)
+			}
 		}
-	}
-	for _, k := range []string{"register.mask.negative", "register.mask.zero", "register.mask.valid", "register.mask.extra_bits"} {
-		if c.Stats.Distribution[k] == 0 {
-			c.HarnessError("register: no mask of kind %s was generated", k)
+		for _, k := range []string{"register.mask.negative", "register.mask.zero", "register.mask.valid", "register.mask.extra_bits"} {
+			if c.Stats.Distribution[k] == 0 {
+				c.HarnessError("register: no mask of kind %s was generated", k)
+			}
 		}
 	}
 	c.Stats.Exhaustive = !c.Quick()
